@@ -117,6 +117,11 @@ GroupRecEl(n, rtype, nsrc, tag) ==
       t == [T |-> "IGMPv3GroupRecord", Type |-> <<rtype>>, AuxDataLen |-> <<0>>, NumberOfSources |-> BE16(nsrc), MulticastAddress |-> V(tag, 4),
             SourceAddresses |-> srcs, AuxData |-> <<>>] IN
   El(n, t, <<New(n, "NewGroupRecord", <<<<rtype>>, V(tag, 4), srcs>>)>>)
+\* a group record carrying auxiliary data words (IGMPv3 says none are defined, the format allows them)
+GroupRecAuxEl(n, rtype, nsrc, naux, tag) ==
+  LET g == GroupRecEl(n, rtype, nsrc, tag)
+      aux == [i \in 1..naux |-> V(tag + 40 + i, 4)] IN
+  El(n, [g.tree EXCEPT !.AuxDataLen = <<naux>>, !.AuxData = aux], g.ops \o <<Set(n, "AuxDataLen", <<naux>>), Set(n, "AuxData", aux)>>)
 Igmp3ReportEl(n, recs, tag) ==
   LET t == [T |-> "IGMPv3MembershipReport", Type |-> <<34>>, Reserved |-> <<0>>, Checksum |-> V(tag, 2), Reserved2 |-> <<0, 0>>, NumberOfGroups |-> BE16(Len(recs)),
             GroupRecords |-> TreesOf(recs)] IN
@@ -175,9 +180,12 @@ NextFRAG == \E w \in 0..16383 :
               /\ Sel(w)
               /\ c' = <<w>>
               /\ LET f == FragEl("f", 17, w \div 2, w % 2 = 1, w % 120) IN Emit("FRAG", f, <<>>)
-NextTCP == \E off \in 0..15, flags \in 0..63 :
-              /\ c' = <<off, flags>>
-              /\ Emit("TCP", TcpEl("t", off + flags, off, flags, off % 4), <<>>)
+NextTCP == \/ \E off \in 0..15, flags \in 0..63 :
+                /\ c' = <<off, flags>>
+                /\ Emit("TCP", TcpEl("t", off + flags, off, flags, off % 4), <<>>)
+           \/ \E off \in 0..15, dl \in {4, 20, 44, 60} :     \* a payload long enough to hold the options the data offset announces
+                /\ c' = <<"opts", off, dl>>
+                /\ Emit("TCP", TcpEl("t", off + dl, off, 16 + (off % 8), dl), <<>>)
 NextL4 == \/ \E dl \in {0, 1, 7, 64, 1400}, tag \in {1, 2} : c' = <<"icmp", dl, tag>> /\ Emit("L4", IcmpEl("x", tag, dl), <<>>)
           \/ \E dl \in {0, 1, 7, 64, 1400}, tag \in {1, 2} : c' = <<"udp", dl, tag>> /\ Emit("L4", UdpEl("x", tag, dl), <<>>)
           \/ \E oper \in {1, 2}, tag \in {1, 2, 3} : c' = <<"arp", oper, tag>> /\ Emit("L4", ArpEl("x", tag, oper), <<>>)
@@ -189,6 +197,11 @@ NextIGMP == \/ \E kind \in 1..4, tag \in {1, 9} : c' = <<"v12", kind, tag>> /\ E
                  /\ c' = <<"v3r", nrec, nsrc>>
                  /\ LET recs == [i \in 1..nrec |-> GroupRecEl("r" \o ToString(i), 1 + (i % 6), (nsrc + i) % 6, 10 * i)] IN
                     Emit("IGMP", Igmp3ReportEl("g", recs, nrec + nsrc), recs)
+            \/ \E naux \in {1, 2}, pos \in 1..3 :        \* auxiliary data in the record at position pos of three
+                 /\ c' = <<"v3aux", naux, pos>>
+                 /\ LET recs == [i \in 1..3 |-> IF i = pos THEN GroupRecAuxEl("r" \o ToString(i), 2, i - 1, naux, 10 * i)
+                                                 ELSE GroupRecEl("r" \o ToString(i), 1 + i, i % 2, 10 * i)] IN
+                    Emit("IGMP", Igmp3ReportEl("g", recs, naux + pos), recs)
 \* extension headers of every size class: HEL up to 255 (2048 bytes), filled with options of 8 bytes and one of 6
 HbhBig(n, next, hel, tag) ==
   LET opts == [i \in 1..hel |-> OptEl(Nm(n, i), 30 + (i % 200), 6, tag + i)] \o <<OptEl(Nm(n, 0), 1, 4, tag)>>
